@@ -335,6 +335,13 @@ func (e Engine) Generate(r *core.Rand, tier core.Tier) *core.Scenario {
 	if e.Prop == "C07" {
 		addCrashOps(r, sc)
 	}
+	// Debonding campaigns (delegation-heavy runs): several delegators of one escrow account,
+	// among them the escrow account's own entity (and that entity as a delegator elsewhere), reclaim
+	// in the same epoch, so that many debonding delegations touching the same accounts from both
+	// sides complete at one epoch transition. Own PRNG: the rest of the scenario is unchanged.
+	if wl == nil && (profile == "delegation" || e.Prop == "C15") {
+		addDebondCampaigns(core.NewRand(core.Derive(core.Hash64([]byte(k.Gen.Salt)), "debond-campaign", 0)), sc, &k)
+	}
 	// Nodes that join by state sync (statesync.go). The choices come from a PRNG of their own, so
 	// the rest of the scenario is what it would be without them.
 	if k.Disk {
@@ -397,4 +404,65 @@ func addCrashOps(r *core.Rand, sc *core.Scenario) {
 		ops = append(ops, raw)
 	}
 	sc.Ops = ops
+}
+
+// addDebondCampaigns inserts 1-3 debonding campaigns in front of randomly chosen block ops.
+func addDebondCampaigns(r *core.Rand, sc *core.Scenario, k *ChainKnobs) {
+	var blocks []int
+	for i, raw := range sc.Ops {
+		if bytes.Contains(raw[:min(len(raw), 16)], []byte(`"k":"block"`)) {
+			blocks = append(blocks, i)
+		}
+	}
+	ents, nsign := k.Gen.Entities, k.Gen.Entities+k.Gen.Accounts
+	if len(blocks) < 3 || ents <= k.Gen.Anchors || nsign < 3 {
+		return
+	}
+	at := map[int][]Op{}
+	for c, n := 0, r.Range(1, 3); c < n; c++ {
+		// X: a non-anchor entity (anchor entities never reclaim their own stake); a, b: other signers.
+		x := k.Gen.Anchors + r.Intn(ents-k.Gen.Anchors)
+		y := r.Intn(ents)
+		var ops []Op
+		tx := func(kind string, from, to, amt int) {
+			ops = append(ops, Op{K: "tx", Tx: &TxOp{Kind: kind, From: from, To: to, Amt: amt, Fee: uint64(r.Range(0, 5))}})
+		}
+		blk := func() {
+			ops = append(ops, Op{K: "block", Block: &BlockOp{Proposer: r.Intn(8), Take: 30, Dt: 1}})
+		}
+		var ds []int
+		for i, m := 0, r.Range(2, 4); i < m; i++ {
+			d := r.Intn(nsign)
+			if d == x {
+				continue
+			}
+			ds = append(ds, d)
+			tx("escrow", d, x, r.Range(50, 600))
+		}
+		if y != x && r.Chance(1, 2) {
+			tx("escrow", x, y, r.Range(50, 400))
+		}
+		blk()
+		// The reclaims of one epoch: the delegators, the entity from itself, the entity elsewhere.
+		for _, d := range ds {
+			tx("reclaim", d, x, r.Pick([]int{2, 1, 1})*r.Range(100, 500))
+			if r.Chance(1, 3) {
+				tx("reclaim", d, x, r.Range(100, 1000)) // a second reclaim in the same epoch
+			}
+		}
+		tx("reclaim", x, x, r.Range(50, 700))
+		if y != x {
+			tx("reclaim", x, y, r.Range(100, 1000))
+		}
+		blk()
+		at[blocks[r.Intn(len(blocks))]] = ops
+	}
+	var out = sc.Ops[:0:0]
+	for i, raw := range sc.Ops {
+		for _, o := range at[i] {
+			out = append(out, core.MustJSON(o))
+		}
+		out = append(out, raw)
+	}
+	sc.Ops = out
 }
